@@ -298,9 +298,9 @@ def write_batch(task):
 
 
 def read_work(task):
-    kind, W, triple = task
+    kind, W, triple = task[:3]
     from . import c01
-    terms = c01.gen_terms((kind, W, triple, {}))
+    terms = c01.gen_terms((kind, W, triple, task[3] if len(task) > 3 else {}))
     out = {"cov": {"evaluations": 0, "read_terms": 0, "distinct_nontrivial": 0}, "samples": [], "violations": []}
     groups = {}
     for t in terms:
@@ -408,7 +408,7 @@ def run(rep):
         for tr in itertools.product([(0, False), (2, False), (2, True)], repeat=3):
             tasks.append(("r", ("d2", 2, tr)))
     for pair in itertools.product(G.shapes(2), repeat=2):
-        tasks.append(("r", ("d2c", 3, pair + ((0, False),))))
+        tasks.append(("r", ("d2c", 3, pair + ((0, False),), {"full": not rep.quick})))
     tasks.append(("c", None))
     tasks = rotate(tasks, rep.seed)
     for part in pmap(_dispatch, tasks, rep.procs):
